@@ -6,13 +6,19 @@
   containers, byte strings, undefined): the target document is a valid CBOR document whose
   value is the source's value.  It is a corollary of the parser refinement (C05), the
   contract theorem (C09: the events are a well-formed tree with exact announcements — the
-  precondition of the encoder theorem) and the encoder refinement (C07).  The other eight
-  pairs: executable mirrors composed exactly as in the README + correspondence + oracle
-  (both documents decoded by the specifications).
+  precondition of the encoder theorem) and the encoder refinement (C07).  By the same
+  composition with the UBJSON and JSON encoder theorems: CBOR → UBJSON (`cbor_to_ubjson`:
+  valid UBJSON, same value up to the documented representation change, exactly the same when
+  no number exceeds MaxInt64) and CBOR → JSON for float-free sources with UTF-8 strings
+  (`cbor_to_json`).  The other six pairs (UBJSON / JSON as SOURCE): executable mirrors composed
+  exactly as in the README + correspondence + oracle (both documents decoded by the
+  specifications).
 -/
 import SF.Props.C07
 import SF.Props.C05
 import SF.Proofs.CborTree
+import SF.Proofs.UbjEncTop
+import SF.Proofs.JsonEncTop
 namespace SF.Props.C08
 open SF SF.Cbor SF.Cbor.Cst SF.Props.C01
 
@@ -101,3 +107,46 @@ example :
       [0xbf, 0x61, 0x61, 0x82, 0x05, 0x82, 0x01, 0x02, 0xff] := by decide +kernel
 
 end SF.Props.C08
+
+/-! ## CBOR → UBJSON, CBOR → JSON -/
+
+namespace SF.PropsX.C08
+open SF SF.Cbor SF.Cbor.Cst SF.Props.C01
+
+/-- C08, CBOR → UBJSON: for every supported CBOR item in any spelling, feeding the CBOR parser's
+events to the UBJSON encoder yields the wire form of a well-formed UBJSON item that the UBJSON
+reference decoder reads back completely as ONE value: the source's value up to the documented
+representation change (an unsigned number above MaxInt64 becomes a high-precision string),
+and EXACTLY the source's value when no number exceeds MaxInt64 -/
+theorem cbor_to_ubjson (i : Item) (h : i.ok = true) :
+    let evs := Parse.events (Parse.parse {} i.wire).1
+    ∃ u : SF.Ubjson.Wire.UItem, u.ok = true ∧ SF.Ubjson.Enc.encAll (evs.map XEv.ev) = u.wire ∧
+      SF.Ubjson.Cst.decodeStream (SF.Ubjson.Enc.encAll (evs.map XEv.ev)) = .ok [u.value] ∧
+      SF.Ubjson.Enc.approx i.value u.value = true ∧
+      (SF.Ubjson.Enc.noBig i.tree = true → u.value = i.value) := by
+  have hp := SF.Props.C05.parse_supported [i] (by simp [okList, h])
+  simp only [wireList, List.append_nil, eventsList] at hp
+  simp only [hp, Parse.events, Parse.idle, List.reverse_reverse]
+  rw [← tree_events]
+  obtain ⟨u, h1, h2, h3, h4, h5⟩ := SF.Props.UbjEnc.ubj_output_valid i.tree (tree_wf i) (SF.Props.C08.tree_small i h)
+  refine ⟨u, h1, h2, h3, ?_, ?_⟩
+  · rw [← tree_value]; exact h4
+  · intro hb; rw [h5 hb, tree_value]
+
+/-- C08, CBOR → JSON: for every supported CBOR item without floats whose strings and keys are
+valid UTF-8, feeding the CBOR parser's events to the JSON encoder succeeds and yields a JSON
+text that the RFC 8259 reference decoder accepts as exactly one value: the source's value -/
+theorem cbor_to_json (o : SF.Json.Enc.Enc) (i : Item) (h : i.ok = true)
+    (hp : SF.Json.Enc.plain i.tree = true) (hu : SF.Json.Enc.utf8Tree i.tree = true)
+    (hw : o.w = {}) (ha : o.inArray.current = false) :
+    let evs := Parse.events (Parse.parse {} i.wire).1
+    (SF.Json.Enc.run o (evs.map XEv.ev)).2 = (none, .ok) ∧
+    ∃ v, SF.Json.Cst.decode (SF.Json.Enc.encAll o (evs.map XEv.ev)) = .ok [v] false ∧ v = i.value := by
+  have hq := SF.Props.C05.parse_supported [i] (by simp [okList, h])
+  simp only [wireList, List.append_nil, eventsList] at hq
+  simp only [hq, Parse.events, Parse.idle, List.reverse_reverse]
+  rw [← tree_events]
+  obtain ⟨h1, v, h2, h3⟩ := SF.Props.JsonEnc.json_output_decodes o i.tree hp hu hw ha
+  exact ⟨h1, v, h2, by rw [h3, tree_value]⟩
+
+end SF.PropsX.C08
